@@ -193,6 +193,8 @@ def calls_in(node, nested: bool = True):
 
 def call_name(call: ast.Call) -> str:
     """Last component of the callee (``a.b.c(...)`` -> ``c``)."""
+    if not isinstance(call, ast.Call):
+        return ""
     f = call.func
     if isinstance(f, ast.Attribute):
         return f.attr
